@@ -2,14 +2,15 @@
 The domain of the `read (print v) = v` theorem and the token image of a printed value.
 
 `okV` — the values covered by the proof: 64-bit integers, characters (valid code points),
-strings (any runes), booleans, symbols whose name is made of runes with no meaning of their own
+strings (any runes), uint64, finite floats (under the law `FloatLaw`), booleans, symbols whose name is made of runes with no meaning of their own
 to the lexer and which `DecodeAtom` classifies as a symbol (`symOK`: "a name the reader reads as
 a symbol"), lists of such values with or without a dotted tail, arrays of such values; nested
 to any depth. `nil` is covered only as the end of a list (known finding: the text `nil` reads
-back as the symbol `nil`); floats and uint64 have their own theorems (Props/C12).
+back as the symbol `nil`); NaN and ±Inf are covered by the `rt` channel only.
 `toks` — the tokens the lexer produces for the printed text.
 -/
 import ZygoVerif.Proofs.LexNormal
+import ZygoVerif.Proofs.LexFloat
 import ZygoVerif.Model.PrintData
 namespace ZygoVerif.ReadPrint
 open ZygoVerif ZygoVerif.Lexer ZygoVerif.PrintData
@@ -23,6 +24,8 @@ def symOK (n : List Char) : Bool :=
 
 def okAtom : Sexp → Bool
   | .int v => decide (-(2 : Int) ^ 63 ≤ v ∧ v < 2 ^ 63)
+  | .uint v => decide (v < 2 ^ 64)
+  | .float b _ => isFiniteBits b
   | .char v => v.isValidChar
   | .str _ raw => !raw
   | .bool _ => true
@@ -69,8 +72,10 @@ def okList : List Sexp → Bool
 end
 
 /-- the token of an atom -/
-def atomTok : Sexp → Token
+def atomTok (ff : FloatFmt) : Sexp → Token
   | .int v => ⟨.decimal, itoa v⟩
+  | .uint v => ⟨.uint64, natDec v ++ "ULL".toList⟩
+  | .float b sci => ⟨.float, printFloat ff b sci⟩
   | .char v => ⟨.char, [Char.ofNat v]⟩
   | .str s _ => ⟨.string, s⟩
   | .bool b => ⟨.bool, if b then "true".toList else "false".toList⟩
@@ -85,42 +90,42 @@ def tBS : Token := ⟨.backslash, []⟩
 
 mutual
 /-- the tokens of the printed value -/
-def toks : Sexp → List Token
-  | .pair h t => tLP :: (toks h ++ toksRest t)
-  | .array es _ => tLS :: (toksElems es ++ [tRS])
-  | .int v => [atomTok (.int v)]
-  | .uint v => [atomTok (.uint v)]
-  | .float b s => [atomTok (.float b s)]
-  | .char v => [atomTok (.char v)]
-  | .str s raw => [atomTok (.str s raw)]
-  | .sym n a b => [atomTok (.sym n a b)]
-  | .bool b => [atomTok (.bool b)]
-  | .comment t b => [atomTok (.comment t b)]
-  | .comma => [atomTok .comma]
-  | .semicolon => [atomTok .semicolon]
-  | .null => [atomTok .null]
-  | .endS => [atomTok .endS]
-  | .emptyHash => [atomTok .emptyHash]
+def toks (ff : FloatFmt) : Sexp → List Token
+  | .pair h t => tLP :: (toks ff h ++ toksRest ff t)
+  | .array es _ => tLS :: (toksElems ff es ++ [tRS])
+  | .int v => [atomTok ff (.int v)]
+  | .uint v => [atomTok ff (.uint v)]
+  | .float b s => [atomTok ff (.float b s)]
+  | .char v => [atomTok ff (.char v)]
+  | .str s raw => [atomTok ff (.str s raw)]
+  | .sym n a b => [atomTok ff (.sym n a b)]
+  | .bool b => [atomTok ff (.bool b)]
+  | .comment t b => [atomTok ff (.comment t b)]
+  | .comma => [atomTok ff .comma]
+  | .semicolon => [atomTok ff .semicolon]
+  | .null => [atomTok ff .null]
+  | .endS => [atomTok ff .endS]
+  | .emptyHash => [atomTok ff .emptyHash]
 /-- the tokens of the rest of a list after a head, including the closing bracket -/
-def toksRest : Sexp → List Token
-  | .pair h t => toks h ++ toksRest t
+def toksRest (ff : FloatFmt) : Sexp → List Token
+  | .pair h t => toks ff h ++ toksRest ff t
   | .null => [tRP]
-  | .array es _ => tBS :: (tLS :: (toksElems es ++ [tRS])) ++ [tRP]
-  | .int v => [tBS, atomTok (.int v), tRP]
-  | .uint v => [tBS, atomTok (.uint v), tRP]
-  | .float b s => [tBS, atomTok (.float b s), tRP]
-  | .char v => [tBS, atomTok (.char v), tRP]
-  | .str s raw => [tBS, atomTok (.str s raw), tRP]
-  | .sym n a b => [tBS, atomTok (.sym n a b), tRP]
-  | .bool b => [tBS, atomTok (.bool b), tRP]
-  | .comment t b => [tBS, atomTok (.comment t b), tRP]
-  | .comma => [tBS, atomTok .comma, tRP]
-  | .semicolon => [tBS, atomTok .semicolon, tRP]
-  | .endS => [tBS, atomTok .endS, tRP]
-  | .emptyHash => [tBS, atomTok .emptyHash, tRP]
-def toksElems : List Sexp → List Token
+  | .array es _ => tBS :: (tLS :: (toksElems ff es ++ [tRS])) ++ [tRP]
+  | .int v => [tBS, atomTok ff (.int v), tRP]
+  | .uint v => [tBS, atomTok ff (.uint v), tRP]
+  | .float b s => [tBS, atomTok ff (.float b s), tRP]
+  | .char v => [tBS, atomTok ff (.char v), tRP]
+  | .str s raw => [tBS, atomTok ff (.str s raw), tRP]
+  | .sym n a b => [tBS, atomTok ff (.sym n a b), tRP]
+  | .bool b => [tBS, atomTok ff (.bool b), tRP]
+  | .comment t b => [tBS, atomTok ff (.comment t b), tRP]
+  | .comma => [tBS, atomTok ff .comma, tRP]
+  | .semicolon => [tBS, atomTok ff .semicolon, tRP]
+  | .endS => [tBS, atomTok ff .endS, tRP]
+  | .emptyHash => [tBS, atomTok ff .emptyHash, tRP]
+def toksElems (ff : FloatFmt) : List Sexp → List Token
   | [] => []
-  | e :: r => toks e ++ toksElems r
+  | e :: r => toks ff e ++ toksElems ff r
 end
 
 end ZygoVerif.ReadPrint
